@@ -16,6 +16,15 @@ void put(int j, mixed v) {
   if (arrayp(c)) c[0] = v;
   else if (mapp(c)) c["k"] = v;
 }
+// range assignment into the array in slot j: element 0 is replaced by v
+void put_range_into(int i, string other, int j, int mode) { other->put_range(j, get(i), mode); }
+void put_range(int j, mixed v, int mode) {
+  mixed c = get(j), t;
+  if (!arrayp(c)) return;
+  if (mode == 1) c[0..0] = ({ v });                       // right-hand side is a temporary (one reference)
+  else if (mode == 2) { t = ({ v }); c[0..0] = t; }        // right-hand side also held by a variable
+  else { t = c[0..0] = ({ v }); }                          // the assignment's value is used
+}
 void cb(mixed a, mixed b) { }
 void newfp(int i, int j) { set(j, (: cb, get(i) :)); }
 void callout(int i) { call_out("cb", 1000, get(i)); }
